@@ -947,6 +947,16 @@ func (engine *Engine) readConnBlocking(conn *Conn, parser *Parser, decrease func
 			return
 		}
 		err = parserCloser.Parse((*pbuf)[:n])
+		// The connection may have been upgraded inside this very call: it
+		// belongs to the new protocol from then on, also when the call
+		// failed on input that followed the upgrade request in the same read
+		// (its close handling must run, not the HTTP parser's).
+		if !conn.Trasfered && parser != nil && parser.ParserCloser != nil {
+			parserCloser = parser.ParserCloser
+			parser.onClose = nil
+			parser.CloseAndClean(nil)
+			parser = nil
+		}
 		if err != nil {
 			logging.Debug("parser.Read failed: %v", err)
 			return
@@ -955,12 +965,6 @@ func (engine *Engine) readConnBlocking(conn *Conn, parser *Parser, decrease func
 			parser.onClose = nil
 			parser.CloseAndClean(nil)
 			return
-		}
-		if parser != nil && parser.ParserCloser != nil {
-			parserCloser = parser.ParserCloser
-			parser.onClose = nil
-			parser.CloseAndClean(nil)
-			parser = nil
 		}
 	}
 }
@@ -1010,6 +1014,14 @@ func (engine *Engine) readTLSConnBlocking(conn *Conn, rconn net.Conn, tlsConn *t
 			}
 			if nread > 0 {
 				err = parserCloser.Parse((*pbuf)[:nread])
+				// see readConnBlocking: an upgrade inside this call hands the
+				// connection over, whether or not the call failed afterwards.
+				if !conn.Trasfered && parser != nil && parser.ParserCloser != nil {
+					parserCloser = parser.ParserCloser
+					parser.onClose = nil
+					parser.CloseAndClean(nil)
+					parser = nil
+				}
 				if err != nil {
 					logging.Debug("parser.Read failed: %v", err)
 					return
@@ -1018,12 +1030,6 @@ func (engine *Engine) readTLSConnBlocking(conn *Conn, rconn net.Conn, tlsConn *t
 					parser.onClose = nil
 					parser.CloseAndClean(nil)
 					return
-				}
-				if parser != nil && parser.ParserCloser != nil {
-					parserCloser = parser.ParserCloser
-					parser.onClose = nil
-					parser.CloseAndClean(nil)
-					parser = nil
 				}
 			}
 			if nread == 0 {
